@@ -321,6 +321,25 @@ class OpsMixin:
                 if ctor is not None:
                     return ctor(args, kwargs, node, frame)
             return self.instantiate(fn, args, kwargs, node, frame)
+        if isinstance(fn, External) and fn.name in ("functools.reduce", "operator.or_", "operator.add", "operator.lshift"):
+            # pure standard-library functions the codecs could plausibly be written with: evaluated, not opaque
+            if fn.name == "functools.reduce":
+                f = args[0]
+                items = self.iterate(args[1], node, frame) if len(args) > 1 else None
+                if items is None:
+                    return Unknown("reduce over a dynamic iterable")
+                items = list(items)
+                if len(args) > 2:
+                    acc = args[2]
+                elif items:
+                    acc = items.pop(0)
+                else:
+                    raise PyRaise(Instance(self.bclasses["TypeError"], ("reduce() of empty iterable with no initial value",)),
+                                  node, frame.where(node))
+                for x in items:
+                    acc = self.call(f, [acc, x], {}, node, frame)
+                return acc
+            return self.binop({"operator.or_": "|", "operator.add": "+", "operator.lshift": "<<"}[fn.name], args[0], args[1], node, frame)
         if isinstance(fn, External):
             self.event("external-call", name=fn.name, args=args, kwargs=kwargs, node=node,
                        where=frame.where(node))
@@ -469,6 +488,11 @@ class OpsMixin:
                         r = (f[1] == b)
                     elif f[0] == "ne" and b in f[1]:
                         r = False
+            if r is None and isinstance(a, External) and isinstance(b, External) \
+                    and getattr(a, "inode_gen", None) is not None and getattr(b, "inode_gen", None) is not None:
+                # two inode numbers of the stand-in's device node: equal iff the node was not replaced in between
+                r = a.inode_gen == b.inode_gen
+                self.event("ext-compare", a=a, b=b, equal=r, where=frame.where(node), node=node)
             if r is None:
                 r = self.decide(self.describe_cond(node), node, frame)
                 if isinstance(a, External) or isinstance(b, External):
